@@ -23,6 +23,9 @@ CONSTANTS Params,      \* set of parameter records, one is chosen at Init (so th
                        \*   block    input read block (get_default_blocksize)
                        \*   limit    extraction chunk limit (get_memory_limit)
                        \*   honours  the last decoder honours max_length
+                       \*   slack    ... up to a constant overshoot (Brotli's soft limit, one Deflate64 input slice); 0 = exactly
+                       \*   drains   the glue asks a decoder that still holds data for more before it reads the next block
+                       \*            (repaired tree); FALSE: it reads a block on every call (tree before the repair)
                        \*   short    hostile stream: the packed data holds `short` fewer plain bytes than declared
           StallMax,    \* Worker.decompress gives up after this many fruitless calls on exhausted input
           Guarded      \* FALSE: the loop before the repair (no stall counter) - used as negative control
@@ -34,6 +37,8 @@ Block == p.block
 Limit == p.limit
 Honours == p.honours
 Short == p.short
+Slack == p.slack
+Drains == p.drains
 
 Min(a, b) == IF a < b THEN a ELSE b
 RECURSIVE Sum(_)
@@ -50,7 +55,7 @@ VARIABLES mi,          \* index of the member being delivered (1..Len(Sizes)+1)
           buf,         \* len(_buf) - _pos : decoded bytes parked between calls
           stalled,
           outcome,     \* "running" | "done" | "raised"
-          last         \* observation of the last decompress call: [m, res, tmp]
+          last         \* observation of the last decompress call: [m, res, tmp, d]
 
 vars == <<p, mi, remaining, delivered, consumed, decoded, held, buf, stalled, outcome, last>>
 
@@ -58,7 +63,7 @@ Init == /\ p \in Params
         /\ mi = 1 /\ remaining = (IF Len(p.sizes) > 0 THEN p.sizes[1] ELSE 0)
         /\ delivered = [i \in 1..Len(p.sizes) |-> 0]
         /\ consumed = 0 /\ decoded = 0 /\ held = 0 /\ buf = 0 /\ stalled = 0
-        /\ outcome = (IF Len(p.sizes) = 0 THEN "done" ELSE "running") /\ last = [m |-> 0, res |-> 0, tmp |-> 0]
+        /\ outcome = (IF Len(p.sizes) = 0 THEN "done" ELSE "running") /\ last = [m |-> 0, res |-> 0, tmp |-> 0, d |-> 0]
 
 (* What the decoder chain may return for d new packed bytes and limit m. *)
 (* It has seen consumed+d packed bytes; everything is decodable once the whole stream has been fed. *)
@@ -66,7 +71,7 @@ Avail(c) == IF c >= PackSize THEN Plain ELSE (Plain * c) \div PackSize     \* pl
 
 DecoderReturns(d, m) ==
   LET pending == Avail(consumed + d) - decoded           \* decodable now, not yet emitted
-  IN  IF Honours THEN { t \in 0..Min(pending, m) : (pending > 0 /\ m > 0) => t > 0 }    \* at most m, progress when it can
+  IN  IF Honours THEN { t \in 0..Min(pending, m + Slack) : (pending > 0 /\ m > 0) => t > 0 }    \* at most m (+ slack), progress when it can
       ELSE { pending }                                                               \* everything the input decodes to
 
 (* one iteration of Worker.decompress: tmp = decompressor.decompress(fp, min(out_remaining, max_block_size)) *)
@@ -75,18 +80,18 @@ Step == /\ outcome = "running" /\ mi <= Len(Sizes) /\ remaining > 0
            IF buf >= m
            THEN \* enough parked data: no read, no decoder call
                 /\ buf' = buf - m
-                /\ last' = [m |-> m, res |-> m, tmp |-> 0]
+                /\ last' = [m |-> m, res |-> m, tmp |-> 0, d |-> 0]
                 /\ remaining' = remaining - m
                 /\ delivered' = [delivered EXCEPT ![mi] = @ + m]
                 /\ stalled' = 0
                 /\ UNCHANGED <<consumed, decoded, held>>
-           ELSE \E d \in {Min(PackSize - consumed, Block)} : \E t \in DecoderReturns(d, m) :
+           ELSE \E d \in {IF Drains /\ held > 0 THEN 0 ELSE Min(PackSize - consumed, Block)} : \E t \in DecoderReturns(d, m) :
                   LET res == IF buf + t <= m THEN buf + t ELSE m IN
                   /\ consumed' = consumed + d
                   /\ decoded' = decoded + t
                   /\ held' = Avail(consumed + d) - (decoded + t)
                   /\ buf' = buf + t - res
-                  /\ last' = [m |-> m, res |-> res, tmp |-> t]
+                  /\ last' = [m |-> m, res |-> res, tmp |-> t, d |-> d]
                   /\ remaining' = remaining - res
                   /\ delivered' = [delivered EXCEPT ![mi] = @ + res]
                   /\ stalled' = IF res > 0 THEN 0
@@ -117,6 +122,16 @@ Conserved  == Sum(delivered) + buf = decoded                      \* nothing los
 (* C20: what py7zr parks is bounded by the chunk limit (honouring decoders) or one block's expansion *)
 ExpBlock   == (Plain * Block) \div PackSize + 1                  \* what one input block can expand to
 BufBound   == buf <= (IF Honours THEN Limit ELSE Limit + ExpBlock)
+(* C20: the memory the pipeline holds at any moment - the input block just read, packed bytes taken from the file but still  *)
+(* inside the decoders, the decoders' output of this call, the carry-over, the chunk handed out - stays within a budget that  *)
+(* depends on the chunk limit, the block size and the overshoot constant only: not on the member's size, not on its ratio.    *)
+Needed(x) == IF x = 0 THEN 0 ELSE CHOOSE c \in 0..PackSize : Avail(c) >= x /\ \A c2 \in 0..(c - 1) : Avail(c2) < x
+InHeld     == consumed - Needed(decoded)                          \* packed bytes read ahead of what has been decoded
+Budget     == 3 * Limit + 2 * Slack + 2 * Block
+Resident   == last.d + InHeld + last.tmp + buf + last.res
+MemBound   == Resident <= Budget
+InputBound == InHeld <= Block
+OutBound   == last.tmp <= (IF Honours THEN last.m + Slack ELSE Block)   \* a call's decoder output: the request, or (1:1 coders) the block
 (* a conforming stream is never rejected *)
 NoFalseAlarm == (Short = 0) => outcome # "raised"
 (* C05: the loop ends: with everything delivered, or with an exception when the stream is short *)
